@@ -3,6 +3,8 @@ C19 — An interactive session behaves like the same declarations in one file.
 Theorems about `Model/Repl.lean`; no bound on the number or size of the entries.
 -/
 import LaytheVerif.Model.Repl
+import LaytheVerif.Model.ReplFibers
+import LaytheVerif.Gen.ReplLoop
 namespace LaytheVerif.C19
 open LaytheVerif.Repl
 
@@ -715,5 +717,296 @@ example :
     (es.map fun e => (compile ["print"] (runSession ["print"] St.empty [es[0]!]) e).toOption.map (·.script)) =
       [none, none, none, none, some [.decl 1, .decl 2, .set 2, .get 2, .get 0, .set 1]] := by
   decide
+
+/-! ### what else outlives an entry: the run queue, the fibers of earlier entries, their channels
+
+`Model/ReplFibers.lean`: `Sess` = the module (`Repl.St`: symbols, cache-vector lengths, live functions)
++ the scheduler state (`Sched.VM`: `runq` = `Vm.fiber_queue`, every fiber, every channel).  -/
+
+section Fibers
+open LaytheVerif.Sched LaytheVerif.ReplFibers
+
+/-! [G] the tables `tools/translate_c19.py` reads from laythe_vm/src/vm/*.rs are the ones the model was
+written from.  An edit that makes `interpret`, `prepare` or `repl` name `fiber_queue` — or any other
+member of `self` they do not name today — re-opens these. -/
+
+/-- the run queue is written by `queue_blocked_fiber` (`Sched.queueBlocked`), `op_launch`
+(`Sched.execLaunch`) and the two import instructions (the fiber of a module body: C17), read by the
+`ContextSwitch` arm of `execute` (`Sched.contextSwitch`) and walked by the collector's root scan —
+and by nothing else: not by `repl`, `interpret`, `prepare` or `compile`. -/
+theorem queue_sites_as_modelled :
+    Gen.ReplLoop.queueSites =
+      [("basic.rs", "queue_blocked_fiber", "push_back"), ("impls.rs", "trace", "iter"), ("impls.rs", "trace_debug", "iter"),
+       ("mod.rs", "execute", "pop_front"), ("ops.rs", "op_launch", "push_back"), ("ops.rs", "op_import", "push_back"),
+       ("ops.rs", "op_import_symbol", "push_back")] := by decide
+
+/-- `interpret`: `compile`, then `prepare` and `execute`, or the diagnostics (`io`, `files`); the
+result of `execute` is returned as it is (`ReplFibers.runEntry` does not consult `FEntry.raises`) -/
+theorem interpret_as_modelled :
+    Gen.ReplLoop.interpretSelf = ["compile", "prepare", "execute", "io", "files"] := by decide
+
+/-- `prepare`: a fresh fiber becomes `fiber` and `main_fiber` and is activated (`ReplFibers.prepare`) -/
+theorem prepare_as_modelled :
+    Gen.ReplLoop.prepareSelf = ["create_fiber", "fiber", "main_fiber", "fiber", "load_ip", "current_fun"] := by decide
+
+/-- `repl`: read a line, register the source, `interpret` — and drop its result (`ReplFibers.step`) -/
+theorem repl_as_modelled :
+    Gen.ReplLoop.replSelf =
+      ["io", "root_dir", "main_module", "manage_str", "push_root", "manage_str", "push_root", "files", "pop_roots", "interpret"] := by
+  decide
+
+/-- no statement of the read-compile-run loop itself touches the run queue -/
+theorem run_queue_untouched_between_entries :
+    ∀ s ∈ Gen.ReplLoop.queueSites, s.2.1 ∉ ["repl", "interpret", "prepare", "compile", "main_module"] := by decide
+
+/-- **C19_compile_error_changes_nothing_at_all.**  An entry that fails to compile leaves every
+component of the session state as it was: the module's symbols, its cache vectors, the live
+functions — and the run queue, every fiber and every channel. -/
+theorem C19_compile_error_changes_nothing_at_all (fuel : Nat) (globals : List String) (s : Sess) (e : ReplFibers.Entry)
+    (err : CompileError) (h : compile globals s.st e.c = .error err) :
+    (ReplFibers.step fuel globals s e).st = s.st ∧ (ReplFibers.step fuel globals s e).vm = s.vm := by
+  unfold ReplFibers.step
+  split
+  · exact ⟨rfl, rfl⟩
+  · rw [h]; exact ⟨rfl, rfl⟩
+
+/-- **C19_uncaught_error_is_not_consulted.**  Whether a script's last act was to return or to raise an
+error nothing caught makes no difference to the state the next entry starts from: module and
+scheduler state are those the executed part of the script left. -/
+theorem C19_uncaught_error_is_not_consulted (fuel : Nat) (globals : List String) (s : Sess) (c : Repl.Entry) (f : FEntry) :
+    (ReplFibers.step fuel globals s { c, f := { f with raises := true } }).st =
+      (ReplFibers.step fuel globals s { c, f := { f with raises := false } }).st ∧
+    (ReplFibers.step fuel globals s { c, f := { f with raises := true } }).vm =
+      (ReplFibers.step fuel globals s { c, f := { f with raises := false } }).vm := by
+  simp only [ReplFibers.step]
+  split
+  · exact ⟨rfl, rfl⟩
+  · cases compile globals s.st c <;> exact ⟨rfl, rfl⟩
+
+theorem runAt_stopped (main n : Nat) (vm : VM) (h : vm.outcome ≠ .running) : runAt main n vm = vm := by
+  induction n with
+  | zero => rfl
+  | succ k ih =>
+    have hs : stepAt main vm = vm := by
+      unfold stepAt VM.next
+      split
+      · rename_i hr; exact absurd hr h
+      · rfl
+    rw [runAt, hs]; exact ih
+
+/-- the scheduler state after an entry whose script performs no channel / fiber operation — it
+prints, defines, calls, or raises straight away: `prepare` appended the script's fiber, `execute`
+ended on its `Exit` / uncaught error; the run queue was neither popped nor cleared -/
+theorem runEntry_fiber_free (fuel : Nat) (vm : VM) (e : FEntry) (hm : e.main = []) (hf : 0 < fuel) :
+    runEntry fuel vm e = { prepare vm e with outcome := .exit } := by
+  obtain ⟨k, rfl⟩ : ∃ k, fuel = k + 1 := ⟨fuel - 1, by omega⟩
+  have hme : (prepare vm e).me.prog = [] := by
+    simp [prepare, VM.me, VM.fiber, mainFiber, hm]
+  have hstep : stepAt vm.fibers.length (prepare vm e) = { prepare vm e with outcome := .exit } := by
+    have hcur : (prepare vm e).cur = vm.fibers.length := rfl
+    have hout : (prepare vm e).outcome = .running := rfl
+    simp only [stepAt, VM.next, hout, execAt, hme, execReturnAt, hcur, if_true, VM.stop]
+  unfold runEntry
+  rw [runAt, hstep]
+  exact runAt_stopped _ _ _ (by simp)
+
+/-- an entry without channel / fiber content -/
+def FiberFree (e : ReplFibers.Entry) : Prop := e.f.main = [] ∧ e.f.chans = [] ∧ e.f.bodies = []
+
+instance (e : ReplFibers.Entry) : Decidable (FiberFree e) := by unfold FiberFree; infer_instance
+
+/-- the dead main fiber such an entry leaves behind: never parked, in no waiter list, in no queue -/
+def deadMain (vm : VM) : Fiber := mainFiber [] vm.chans.length
+
+/-- **C19_erroneous_entry_changes_none_of_it.**  One entry that is rejected by the compiler, or
+compiles and raises before it performed any channel / fiber operation (or performs none and simply
+returns): the module's symbols are only appended to, its cache vectors only grow, and the scheduler
+state is untouched — the run queue, every channel with its buffered values and waiter lists, and
+every fiber earlier entries created are exactly what they were; the only addition is the dead main
+fiber of this entry.  (`0 < fuel`: the model's step budget lets the script take its one step.) -/
+theorem C19_erroneous_entry_changes_none_of_it (fuel : Nat) (globals : List String) (s : Sess) (e : ReplFibers.Entry)
+    (hf : 0 < fuel) (he : FiberFree e) :
+    (∃ more, (ReplFibers.step fuel globals s e).st.symbols = s.st.symbols ++ more) ∧
+    s.st.propLen ≤ (ReplFibers.step fuel globals s e).st.propLen ∧
+    s.st.invLen ≤ (ReplFibers.step fuel globals s e).st.invLen ∧
+    (ReplFibers.step fuel globals s e).vm.runq = s.vm.runq ∧
+    (ReplFibers.step fuel globals s e).vm.chans = s.vm.chans ∧
+    (ReplFibers.step fuel globals s e).vm.bodies = s.vm.bodies ∧
+    ((ReplFibers.step fuel globals s e).vm.fibers = s.vm.fibers ∨
+     (ReplFibers.step fuel globals s e).vm.fibers = s.vm.fibers ++ [deadMain s.vm]) := by
+  obtain ⟨hm, hc, hb⟩ := he
+  unfold ReplFibers.step
+  split
+  · exact ⟨⟨[], by simp⟩, Nat.le_refl _, Nat.le_refl _, rfl, rfl, rfl, Or.inl rfl⟩
+  · cases hcomp : compile globals s.st e.c with
+    | error err => exact ⟨⟨[], by simp⟩, Nat.le_refl _, Nat.le_refl _, rfl, rfl, rfl, Or.inl rfl⟩
+    | ok c =>
+      have hrun := runEntry_fiber_free fuel s.vm e.f hm hf
+      obtain ⟨g1, g2⟩ := C19_cache_vectors_only_grow globals s.st e.c
+      refine ⟨step_symbols globals s.st e.c, g1, g2, ?_, ?_, ?_, Or.inr ?_⟩
+      · simp only [hrun]; rfl
+      · simp only [hrun]; simp [prepare, hc]
+      · simp only [hrun]; simp [prepare, hb]
+      · simp only [hrun]; simp [prepare, hc, hm, deadMain]
+
+/-- the fibers a run of fiber-free entries adds are dead main fibers -/
+def DeadMain (f : Fiber) : Prop := f.state = .running ∧ f.prog = [] ∧ f.channels = [] ∧ f.parent = none
+
+/-- **C19_pending_fibers_survive_erroneous_entries.**  Any number of entries without channel / fiber
+content — failing to compile, raising, or succeeding, in any mix: the run queue, the channels and
+every earlier fiber (state, saved position, channels-used list) are exactly what they were when the
+first of them was entered, so a fiber an earlier entry launched is still queued (or still parked
+in the waiter list it was parked in) when a later entry synchronises with it. -/
+theorem C19_pending_fibers_survive_erroneous_entries (fuel : Nat) (globals : List String) (hf : 0 < fuel)
+    (es : List ReplFibers.Entry) (hes : ∀ e ∈ es, FiberFree e) : ∀ s : Sess,
+    (ReplFibers.runSession fuel globals s es).vm.runq = s.vm.runq ∧
+    (ReplFibers.runSession fuel globals s es).vm.chans = s.vm.chans ∧
+    (ReplFibers.runSession fuel globals s es).vm.bodies = s.vm.bodies ∧
+    ∃ dead, (ReplFibers.runSession fuel globals s es).vm.fibers = s.vm.fibers ++ dead ∧ ∀ d ∈ dead, DeadMain d := by
+  induction es with
+  | nil => intro s; exact ⟨rfl, rfl, rfl, [], by simp [ReplFibers.runSession], by simp⟩
+  | cons e rest ih =>
+    intro s
+    obtain ⟨_, _, _, h1, h2, h3, h4⟩ :=
+      C19_erroneous_entry_changes_none_of_it fuel globals s e hf (hes e List.mem_cons_self)
+    obtain ⟨i1, i2, i3, dead, i4, i5⟩ := ih (fun x hx => hes x (List.mem_cons_of_mem _ hx)) (ReplFibers.step fuel globals s e)
+    simp only [ReplFibers.runSession]
+    refine ⟨by rw [i1, h1], by rw [i2, h2], by rw [i3, h3], ?_⟩
+    rcases h4 with h4 | h4
+    · exact ⟨dead, by rw [i4, h4], i5⟩
+    · refine ⟨deadMain s.vm :: dead, by rw [i4, h4]; simp, ?_⟩
+      intro d hd
+      rcases List.mem_cons.mp hd with rfl | hd
+      · exact ⟨rfl, rfl, rfl, rfl⟩
+      · exact i5 d hd
+
+/-- … in particular every earlier fiber is looked up unchanged -/
+theorem C19_earlier_fibers_unchanged (fuel : Nat) (globals : List String) (hf : 0 < fuel)
+    (es : List ReplFibers.Entry) (hes : ∀ e ∈ es, FiberFree e) (s : Sess) (i : Nat) (hi : i < s.vm.fibers.length) :
+    (ReplFibers.runSession fuel globals s es).vm.fiber i = s.vm.fiber i := by
+  obtain ⟨_, _, _, dead, h, _⟩ := C19_pending_fibers_survive_erroneous_entries fuel globals hf es hes s
+  simp [VM.fiber, h, List.getElem?_append_left hi]
+
+/-! non-vacuity, and the seeded change of round 3 as a regression fact -/
+
+/-- `seeded/C19_r3/demo_session.txt` in the model's vocabulary: a buffered channel, a worker that sends
+40 and 42, `launch`, an entry that raises (`counter.nope();`), an entry the parser rejects, then
+three entries that receive -/
+def pendingSession : List ReplFibers.Entry :=
+  [ { c := { syntaxOk := true, decls := ["results"], refs := [], funs := [], script := [.set "results"], calls := [] },
+      f := { chans := [some 2] } },
+    { c := { syntaxOk := true, decls := ["worker"], refs := [], funs := [{ name := "worker", ops := [.prop, .prop] }],
+             script := [.set "worker"], calls := [] },
+      f := { bodies := [[.send 0 40, .send 0 42]] } },
+    { c := { syntaxOk := true, decls := [], refs := ["worker", "results"], funs := [], script := [.get "worker", .get "results"],
+             calls := [] },
+      f := { main := [.launch 1 [0]] } },
+    { c := { syntaxOk := true, decls := [], refs := ["results"], funs := [], script := [.get "results", .prop], calls := [] },
+      f := { raises := true } },
+    { c := { syntaxOk := false, decls := [], refs := [], funs := [], script := [], calls := [] } },
+    { c := { syntaxOk := true, decls := [], refs := ["print", "results"], funs := [],
+             script := [.get "print", .get "results", .invoke], calls := ["worker"] },
+      f := { main := [.recv 0] } },
+    { c := { syntaxOk := true, decls := [], refs := ["print", "results"], funs := [],
+             script := [.get "print", .get "results", .invoke], calls := [] },
+      f := { main := [.recv 0] } } ]
+
+/-- the launched fiber is queued when its entry ends, is still queued after the raising entry and the
+rejected one, and the later entries receive 40 and 42 from it -/
+example :
+    ReplFibers.outputs 50 ["print"] Sess.empty pendingSession =
+      [(.exit, []), (.exit, []), (.exit, []), (.raised, []), (.compileError, []),
+       (.exit, [.got 0 (some 40)]), (.exit, [.got 0 (some 42)])] ∧
+    (ReplFibers.runSession 50 ["print"] Sess.empty (pendingSession.take 3)).vm.runq = [3] ∧
+    (ReplFibers.runSession 50 ["print"] Sess.empty (pendingSession.take 5)).vm.runq = [3] ∧
+    (ReplFibers.runSession 50 ["print"] Sess.empty pendingSession).vm.runq = [] := by
+  decide
+
+/-- **C19_regression_queue_cleared_on_error** (seeded change C19_r3).  Were `interpret` to clear the run
+queue when `execute` returns `RuntimeError`, the same session would report a deadlock at its first
+receive: the theorems above are about something the implementation could get wrong. -/
+theorem C19_regression_queue_cleared_on_error :
+    QueueClearedOnError.outputs 50 ["print"] Sess.empty pendingSession =
+      [(.exit, []), (.exit, []), (.exit, []), (.raised, []), (.compileError, []), (.deadlock, []), (.deadlock, [])] := by
+  decide
+
+/-- `known_findings/DC19.3-wakeup-owed-by-ended-script-is-lost/session.txt`: a worker that twice
+receives on channel 0 and answers on channel 1; the scripts send 12 and receive, send 10 — and end —,
+then receive -/
+def trivialEntry : Repl.Entry := { syntaxOk := true, decls := [], refs := [], funs := [], script := [], calls := [] }
+
+def lostWakeupSession : List ReplFibers.Entry :=
+  [ { c := trivialEntry, f := { chans := [some 2, some 1] } },
+    { c := trivialEntry, f := { bodies := [[.recv 0, .send 1 13, .recv 0, .send 1 11]] } },
+    { c := trivialEntry, f := { main := [.launch 1 [0, 1]] } },
+    { c := trivialEntry, f := { main := [.send 0 12, .recv 1] } },
+    { c := trivialEntry, f := { main := [.send 0 10] } },
+    { c := trivialEntry, f := { main := [.recv 1] } } ]
+
+/-- the same lines as one module: one script, one main fiber -/
+def lostWakeupModule : List ReplFibers.Entry :=
+  [ { c := trivialEntry,
+      f := { chans := [some 2, some 1], bodies := [[.recv 0, .send 1 13, .recv 0, .send 1 11]],
+             main := [.launch 1 [0, 1], .send 0 12, .recv 1, .send 0 10, .recv 1] } } ]
+
+set_option maxRecDepth 8000 in
+/-- **C19_witness_wakeup_owed_by_ended_script_is_lost** (DC19.3, known finding).  A send on a buffered
+channel with room wakes nobody; the sender delivers the wake-up when it parks or completes — the
+script of a prompt entry does neither when it ends, and the next entry's fresh main fiber scans only
+the channels it used itself: the worker stays parked on channel 0 although its value is waiting, and
+the entry that needs its answer is told `Fatal error deadlock.`; as one module the second answer
+arrives.  (The model is the code's: the implementation reports this deadlock.) -/
+theorem C19_witness_wakeup_owed_by_ended_script_is_lost :
+    ReplFibers.outputs 60 [] Sess.empty lostWakeupSession =
+      [(.exit, []), (.exit, []), (.exit, []), (.exit, [.got 1 (some 12), .got 0 (some 13)]), (.exit, []), (.deadlock, [])] ∧
+    ReplFibers.outputs 60 [] Sess.empty lostWakeupModule =
+      [(.exit, [.got 1 (some 12), .got 0 (some 13), .got 1 (some 10), .got 0 (some 11)])] := by
+  decide
+
+end Fibers
+
+/-! ### known finding DC19.1: an import that fails to compile takes a module id but no cache entry -/
+
+section ModuleIds
+open LaytheVerif.Repl.ModuleIds
+
+/-- as long as every imported file compiles, ids and cache entries stay in step (`nextId = caches`) and
+every loaded module indexes inside `Vm.inline_cache` -/
+theorem loads_all_compile_in_range (cs : List Bool) (hall : ∀ c ∈ cs, c = true) : ∀ t : Tbl, t.nextId = t.caches →
+    (loads t cs).1.nextId = (loads t cs).1.caches ∧ t.caches ≤ (loads t cs).1.caches ∧
+    ∀ id ∈ (loads t cs).2, inRange (loads t cs).1 id = true := by
+  induction cs with
+  | nil => intro t h; exact ⟨h, Nat.le_refl _, by simp [loads]⟩
+  | cons c rest ih =>
+    intro t h
+    have hc : c = true := hall c List.mem_cons_self
+    subst hc
+    have h1 : (load true t).1.nextId = (load true t).1.caches := by simp [load, h]
+    have h2 : (load true t).1.caches = t.caches + 1 := by simp [load, h]
+    obtain ⟨a, b, d⟩ := ih (fun x hx => hall x (List.mem_cons_of_mem _ hx)) (load true t).1 h1
+    refine ⟨by simpa [loads] using a, by simp only [loads]; omega, ?_⟩
+    intro id hid
+    simp only [loads, if_true, List.mem_cons] at hid
+    rcases hid with rfl | hid
+    · simp only [loads, inRange, decide_eq_true_eq]
+      have : (load true t).2 = t.nextId := rfl
+      omega
+    · simpa [loads] using d id hid
+
+/-- **C19_witness_failed_import_skips_cache_entry** (DC19.1, known finding).  `import self.bad;` (the
+file does not compile) followed by `import self.good;`: whatever the table looked like while ids and
+entries were in step, `good`'s id is now the length of `Vm.inline_cache` — its first property / invoke
+site indexes one past the end (known_findings/DC19.1-failed-import-skips-cache-entry/session.txt). -/
+theorem C19_witness_failed_import_skips_cache_entry (t : Tbl) (h : t.nextId = t.caches) :
+    (loads t [false, true]).2 = [t.nextId + 1] ∧ inRange (loads t [false, true]).1 (t.nextId + 1) = false ∧
+    (loads t [false, true]).1.caches = t.nextId + 1 := by
+  have hlt : ¬ (t.caches + 1 < t.caches) := by omega
+  simp [loads, load, inRange, h, hlt]
+
+/-- the prompt's situation: 21 modules exist (ids 0..20: the standard library and the session's own
+module), then `bad`, then `good` -/
+example : (loads { nextId := 21, caches := 21 } [false, true]) = ({ nextId := 23, caches := 22 }, [22]) := by decide
+
+end ModuleIds
 
 end LaytheVerif.C19
